@@ -15,10 +15,6 @@ Open Scope N_scope.
 Section RaftLog.
 Variable V : list N.
 
-(* X is a prefix of a log that the leader of term t held while leading *)
-Definition lpre (s : state) (t : N) (X : list entry) : Prop :=
-  (exists n L, In (t, n, L) (elected s) /\ prefix X L) \/
-  (exists K, In K (created s) /\ lastTerm K = t /\ prefix X K).
 
 Definition msg_ok (s : state) (m : areq) : Prop :=
   (exists L0, In (rterm m, rldr m, L0) (elected s)) /\
@@ -386,10 +382,10 @@ Qed.
 
 (* ---- Crash ---- *)
 
-Lemma linv_crash s n : linv s -> linv (do_crash n s).
+Lemma linv_crash s n c : linv s -> linv (do_crash n c s).
 Proof.
   intros [Hpos Hcl Hk Hso Hel Hcr1 Hwfn Hwfs Htn Hts Hldc Hlde Hldl Hfl Hunfl Hmsg].
-  assert (Hlp : forall t Y, lpre s t Y -> lpre (do_crash n s) t Y).
+  assert (Hlp : forall t Y, lpre s t Y -> lpre (do_crash n c s) t Y).
   { intros t Y. apply lpre_mono; unfold do_crash; simpl; apply incl_refl. }
   constructor; unfold do_crash; simpl; try assumption.
   - intros n0. upd_case n0 n; simpl; [|apply Hwfn].
@@ -405,6 +401,40 @@ Proof.
     intros H1 H2. assert (j < length (firstn (flushed (st s n)) (log (st s n))))%nat
       by (apply nth_error_Some; congruence).
     rewrite firstn_length_le in H by apply Hfl. lia.
+Qed.
+
+(* ---- Install ---- *)
+
+Lemma linv_install s f t l K K2 c :
+  linv s -> cur (st s f) <= t -> In K2 (created s) -> prefix K K2 -> lastTerm K2 <= t ->
+  linv (do_install f t l K K2 c s).
+Proof.
+  intros Hl Hterm HK2 HKK2 Hlt.
+  assert (HwfK : wf (created s) K).
+  { apply (wf_prefix _ _ K2); [|exact HKK2]. exact (wf_created _ _ (l_closed _ Hl) HK2). }
+  assert (HtK : forall e, In e K -> eterm e <= t).
+  { intros e He. pose proof (l_sorted _ Hl _ HK2 e (prefix_incl _ _ HKK2 e He)). lia. }
+  destruct Hl as [Hpos Hcl Hk Hso Hel Hcr1 Hwfn Hwfs Htn Hts Hldc Hlde Hldl Hfl Hunfl Hmsg].
+  assert (Hlp : forall t0 Y, lpre s t0 Y -> lpre (do_install f t l K K2 c s) t0 Y).
+  { intros t0 Y. apply lpre_mono; unfold do_install; simpl; apply incl_refl. }
+  constructor; unfold do_install; simpl; try assumption.
+  - intros n. upd_case n f; simpl; [|apply Hwfn].
+    destruct (prefixb K (log (st s f))); [apply Hwfn | exact HwfK].
+  - intros n e. upd_case n f; simpl; [|apply Htn].
+    destruct (prefixb K (log (st s f))).
+    + intro He. pose proof (Htn _ _ He). lia.
+    + apply HtK.
+  - intros l0 K0. upd_case l0 f; simpl; [intro H; discriminate H | apply Hldc].
+  - intros l0 L. upd_case l0 f; simpl; [intro H; discriminate H | apply Hlde].
+  - intros l0. upd_case l0 f; simpl; [intro H; discriminate H|].
+    intros Hr. exact (Hlp _ _ (Hldl _ Hr)).
+  - intros n. upd_case n f; simpl; [|apply Hfl].
+    destruct (prefixb K (log (st s f))) eqn:E; [|lia].
+    apply prefixb_true in E. pose proof (prefix_length _ _ E). pose proof (Hfl f). lia.
+  - intros n j e. upd_case n f; simpl; [|apply Hunfl].
+    destruct (prefixb K (log (st s f))) eqn:E.
+    + intros H1 H2. apply (Hunfl _ _ _ H1). lia.
+    + intros H1 H2. assert (j < length K)%nat by (apply nth_error_Some; congruence). lia.
 Qed.
 
 (* ---- all steps ---- *)
@@ -480,6 +510,8 @@ Proof.
     + intros t0 c0 L0 Hin. left. exact Hin.
     + intros m Hin. left. exact Hin.
     + intros n0. pose proof (l_fl _ Hl n0). upd_case n0 n; simpl; node_obl.
+  - (* install *)
+    apply linv_install; assumption.
 Qed.
 
 Lemma reachable_inv s : Reachable V s -> vinv V s /\ linv s.
